@@ -113,9 +113,12 @@ def gen_all(seed, tier, round_no=0):
             for e in ENTRIES:
                 a = rng.choice(ALGOS)
                 cs.append(all_lengths_case(rng, f"l{cid}", k, e, a, rng.choice(["e8", "e40"]))); cid += 1
-    n = 3000 if tier == "quick" else 30000
+    n = 3000 if tier == "quick" else 100000
     for _ in range(n):
         cs.append(gen_case(rng, f"g{cid}")); cid += 1
+    # beyond the stated k range: more players than 9 (several loser tree levels, padding players)
+    for _ in range(60 if tier == "quick" else 4000):
+        cs.append(gen_case(rng, f"b{cid}", k=rng.choice([10, 11, 12, 15, 16, 17, 20, 31, 32, 33]))); cid += 1
     return cs
 
 
